@@ -37,12 +37,13 @@ if r.returncode:
 # demo with change
 r = sh(f"/venv/bin/python {demo}", cwd=wt, env=env)
 meta["demo_with_change_exit"] = r.returncode
-sh("git stash -q -- sqlglot", cwd=wt)
+# (not git stash: the stash stack is shared by all worktrees of a repository, so parallel evaluations would swap changes)
+assert sh(f"git apply -R {patch}", cwd=wt).returncode == 0
 try:
     r0 = sh(f"/venv/bin/python {demo}", cwd=wt, env=env)
     meta["demo_without_change_exit"] = r0.returncode
 finally:
-    sh("git stash pop -q", cwd=wt)
+    assert sh(f"git apply {patch}", cwd=wt).returncode == 0
 print("demo with change exit", meta["demo_with_change_exit"], "| without", meta["demo_without_change_exit"])
 if not skip_tests:
     t = time.time()
